@@ -50,19 +50,27 @@ __all__ = ("TrioEventLoop",)
 class _TrioIdleCallbackInstrument(trio.abc.Instrument):
     """IDLE callbacks emulation helper."""
 
-    __slots__ = ("idle_callbacks",)
+    __slots__ = ("idle_callbacks", "on_error")
 
-    def __init__(self, idle_callbacks: Mapping[Hashable, Callable[[], typing.Any]]):
+    def __init__(
+        self,
+        idle_callbacks: Mapping[Hashable, Callable[[], typing.Any]],
+        on_error: Callable[[BaseException], typing.Any],
+    ):
         self.idle_callbacks = idle_callbacks
+        self.on_error = on_error
 
     def before_io_wait(self, timeout: float) -> None:
         if timeout > 0:
-            # callbacks may add or remove idle callbacks: walk a snapshot of the handles and
-            # skip any that an earlier callback of this pass has removed
-            for handle in list(self.idle_callbacks):
-                idle_callback = self.idle_callbacks.get(handle)
-                if idle_callback is not None:
-                    idle_callback()
+            try:
+                # callbacks may add or remove idle callbacks: walk a snapshot of the handles and
+                # skip any that an earlier callback of this pass has removed
+                for handle in list(self.idle_callbacks):
+                    idle_callback = self.idle_callbacks.get(handle)
+                    if idle_callback is not None:
+                        idle_callback()
+            except BaseException as exc:  # Trio would log it, disable this instrument and carry on
+                self.on_error(exc)
 
 
 class TrioEventLoop(EventLoop):
@@ -82,6 +90,7 @@ class TrioEventLoop(EventLoop):
         self._pending_tasks: list[tuple[Callable[_Spec, Awaitable], trio.CancelScope, _Spec.args]] = []
 
         self._nursery: trio.Nursery | None = None
+        self._idle_exc: BaseException | None = None
 
         self._sleep = trio.sleep
         self._wait_readable = trio.lowlevel.wait_readable
@@ -172,7 +181,7 @@ class TrioEventLoop(EventLoop):
         exception. If ExitMainLoop is raised, exits cleanly.
         """
 
-        emulate_idle_callbacks = _TrioIdleCallbackInstrument(self._idle_callbacks)
+        emulate_idle_callbacks = _TrioIdleCallbackInstrument(self._idle_callbacks, self._idle_failed)
 
         try:
             trio.run(self._main_task, instruments=[emulate_idle_callbacks])
@@ -197,7 +206,7 @@ class TrioEventLoop(EventLoop):
                 nursery.cancel_scope.cancel()
         """
 
-        emulate_idle_callbacks = _TrioIdleCallbackInstrument(self._idle_callbacks)
+        emulate_idle_callbacks = _TrioIdleCallbackInstrument(self._idle_callbacks, self._idle_failed)
 
         try:
             trio.lowlevel.add_instrument(emulate_idle_callbacks)
@@ -243,6 +252,13 @@ class TrioEventLoop(EventLoop):
             await self._sleep(seconds)
             callback()
 
+    def _idle_failed(self, exc: BaseException) -> None:
+        """Ends the main task with the exception of an idle callback, like the one of any other callback."""
+        self._idle_exc = exc
+        self._idle_callbacks.clear()  # as at the end of run(): the loop is over
+        self._nursery.cancel_scope.cancel()
+        trio.lowlevel.current_trio_token().run_sync_soon(int)  # wake up the I/O wait that follows
+
     def _handle_main_loop_exception(self, exc: BaseException) -> None:
         """Handles exceptions raised from the main loop, catching ExitMainLoop
         instead of letting it propagate through.
@@ -267,6 +283,9 @@ class TrioEventLoop(EventLoop):
             async with trio.open_nursery() as self._nursery:
                 self._schedule_pending_tasks()
                 await trio.sleep_forever()
+            if self._idle_exc is not None:
+                exc, self._idle_exc = self._idle_exc, None
+                raise exc
         finally:
             self._nursery = None
 
